@@ -35,6 +35,7 @@ type Mode struct {
 	Foreign     bool  // C07: the tree may already hold leaves no front end of this version wrote (undecodable, trailing bytes, no extra data)
 	External    bool  // C14: second instance with external chain storage
 	LostReply   bool  // C01: the reply to an applied QueueLeaf may be lost (crash between backend and response)
+	StoreFaults bool  // external chain storage with store / cache faults although the backend itself is healthy
 	Lock        bool  // lockstep build (DESIGN §16): mutexes, go statements and statement boundaries of trillian/ctfe are seams
 	ReadWeights []int // sth, consistency, proof-by-hash, entries, entry-and-proof, roots
 	Oracle      func(w *World, op *Op)
